@@ -209,6 +209,7 @@ def main():
     import c18_infer
     c18_infer.infer_size(run)
     c18_infer.neg_dim(run)
+    c18_infer.translator_selftest(run)
 
     lap("infer_size+neg_dim")
     # 3b3. _check_keys on both branches
